@@ -5,8 +5,14 @@
 package main
 
 import (
+	"crypto/ecdsa"
 	"crypto/ed25519"
+	"crypto/elliptic"
 	"crypto/rand"
+	"crypto/x509"
+	"crypto/x509/pkix"
+	"encoding/pem"
+	"math/big"
 	"encoding/hex"
 	"encoding/json"
 	"flag"
@@ -27,6 +33,43 @@ type job struct {
 	key    intoto.Key
 	layout *intoto.Metablock
 	rel    string // the job's directory relative to the process's working directory
+	cert   *certJob
+}
+
+// certJob: the job's OWN certificate authority, leaf certificate, pools and a constraint the leaf
+// does not satisfy in several attributes (the failing path builds an error list).
+type certJob struct {
+	leaf       *x509.Certificate
+	leafPEM    string
+	rootIDs    []string
+	roots      *x509.CertPool
+	inters     *x509.CertPool
+	constraint intoto.CertificateConstraint
+}
+
+func setupCert(i int) *certJob {
+	caKey, _ := ecdsa.GenerateKey(elliptic.P256(), rand.Reader)
+	now := time.Now()
+	caT := &x509.Certificate{SerialNumber: big.NewInt(int64(100 + i)), Subject: pkix.Name{CommonName: fmt.Sprintf("race-ca-%d", i)},
+		NotBefore: now.Add(-time.Hour), NotAfter: now.Add(24 * time.Hour), IsCA: true, BasicConstraintsValid: true, KeyUsage: x509.KeyUsageCertSign}
+	caDER, _ := x509.CreateCertificate(rand.Reader, caT, caT, &caKey.PublicKey, caKey)
+	caCert, _ := x509.ParseCertificate(caDER)
+	leafKey, _ := ecdsa.GenerateKey(elliptic.P256(), rand.Reader)
+	leafT := &x509.Certificate{SerialNumber: big.NewInt(int64(1000 + i)), Subject: pkix.Name{CommonName: fmt.Sprintf("worker-%d", i), Organization: []string{fmt.Sprintf("org-%d", i)}},
+		NotBefore: now.Add(-time.Hour), NotAfter: now.Add(24 * time.Hour), KeyUsage: x509.KeyUsageDigitalSignature,
+		DNSNames: []string{fmt.Sprintf("h%d.example.org", i)}, EmailAddresses: []string{fmt.Sprintf("w%d@example.org", i)}}
+	leafDER, _ := x509.CreateCertificate(rand.Reader, leafT, caCert, &leafKey.PublicKey, caKey)
+	leaf, _ := x509.ParseCertificate(leafDER)
+	caPEM := string(pem.EncodeToMemory(&pem.Block{Type: "CERTIFICATE", Bytes: caDER}))
+	rid := fmt.Sprintf("root%d", i)
+	lay := intoto.Layout{RootCas: map[string]intoto.Key{rid: {KeyID: rid, KeyVal: intoto.KeyVal{Certificate: caPEM}}}, IntermediateCas: map[string]intoto.Key{}}
+	roots, inters, err := intoto.LoadLayoutCertificates(lay, nil)
+	if err != nil {
+		panic(err)
+	}
+	return &certJob{leaf: leaf, leafPEM: string(pem.EncodeToMemory(&pem.Block{Type: "CERTIFICATE", Bytes: leafDER})), rootIDs: []string{rid}, roots: roots, inters: inters,
+		constraint: intoto.CertificateConstraint{CommonName: fmt.Sprintf("somebody-else-%d", i), DNSNames: []string{fmt.Sprintf("other%d.example.org", i)},
+			Emails: []string{fmt.Sprintf("nobody%d@example.org", i)}, Organizations: []string{fmt.Sprintf("another-org-%d", i)}, Roots: []string{"*"}, URIs: []string{fmt.Sprintf("spiffe://x/%d", i)}}}
 }
 
 func mkKey() intoto.Key {
@@ -167,6 +210,21 @@ func do(j job, yield bool) string {
 			}
 		}
 		return res
+	case "certcheck":
+		// certificate constraints checked against the job's own certificate, on the FAILING path
+		// (several attributes do not fit, every check builds its own error list): decision and
+		// error text, directly and through the step (seeded change c16-shared-constraint-error-slice)
+		res := ""
+		for it := 0; it < 20; it++ {
+			err := j.cert.constraint.Check(j.cert.leaf, j.cert.rootIDs, j.cert.roots, j.cert.inters)
+			st := intoto.Step{CertificateConstraints: []intoto.CertificateConstraint{j.cert.constraint}}
+			err2 := st.CheckCertConstraints(intoto.Key{KeyVal: intoto.KeyVal{Certificate: j.cert.leafPEM}}, j.cert.rootIDs, j.cert.roots, j.cert.inters)
+			res += fmt.Sprint(err) + "|" + fmt.Sprint(err2) + ";"
+			if yield {
+				runtime.Gosched()
+			}
+		}
+		return res
 	case "dsse":
 		env := &intoto.Envelope{}
 		if err := env.SetPayload(intoto.Link{Type: "link", Name: j.dir}); err != nil {
@@ -194,7 +252,7 @@ func main() {
 	base, _ := os.MkdirTemp("", "verif-race-")
 	defer os.RemoveAll(base)
 	os.Chdir(base) // relative paths below are relative to this directory
-	kinds := []string{"record", "verify", "run", "relrecord", "signload", "rundir", "verify", "dsse", "relrecord", "record", "rundir", "verify"}
+	kinds := []string{"record", "verify", "run", "certcheck", "relrecord", "signload", "rundir", "certcheck", "verify", "dsse", "relrecord", "record", "rundir", "verify"}
 	var jobs []job
 	for i := 0; i < *n; i++ {
 		d := filepath.Join(base, fmt.Sprintf("w%d", i))
@@ -202,6 +260,9 @@ func main() {
 		jb := job{kind: kinds[i%len(kinds)], dir: d, key: mkKey(), rel: fmt.Sprintf("w%d", i)}
 		if jb.kind == "verify" {
 			jb.layout = setupVerify(d, i, jb.key)
+		}
+		if jb.kind == "certcheck" {
+			jb.cert = setupCert(i)
 		}
 		jobs = append(jobs, jb)
 	}
